@@ -33,7 +33,10 @@ func (m *ModelServer) Register(server grpc.ServiceRegistrar) {
 }
 
 func (m *ModelServer) CreateHail(_ context.Context, request *traits.CreateHailRequest) (*traits.Hail, error) {
-	hail := request.Hail
+	hail := request.GetHail()
+	if hail == nil {
+		hail = &traits.Hail{} // a request may leave the hail out altogether: create an empty one
+	}
 	if hail.State == traits.Hail_STATE_UNSPECIFIED {
 		hail.State = traits.Hail_CALLED
 	}
